@@ -295,3 +295,10 @@ def message_from_cache_entry(ctx):
         ctx.check(ok, f'{fi.qualname}:store updateCallback', tgt,
                   'single notification target dispatcher.announce_update',
                   f'updateCallback is (re)assigned to `{src(value) if value is not None else "?"}`: updates may bypass the dispatcher', fi)
+
+
+@rule('C05.R6', min_instances=2)
+def activation_registers_before_snapshot(ctx):
+    """shared with C08.R1: a connection is registered before its snapshot is sent (no update can fall between)"""
+    from sa.rules import c08
+    c08.register_then_snapshot(ctx)
